@@ -39,11 +39,15 @@ def main():
             rec.end()
         else:
             budget = getattr(mod, "BUDGET_S", {}).get(tier)
+            quick_ones = []  # (hash, case) of cases that took little time: candidates for a second run at the end
             for case in mod.cases(shard, nshards, seed, tier):
                 rec.begin(case)
                 try:
                     before = core.SolverWatch.unexpected
+                    t_case = time.time()
                     mod.run_case(case, rec)
+                    if time.time() - t_case < 1.0:
+                        quick_ones.append((core.chash(case), case))
                     if rec.case_violated and core.SolverWatch.unexpected > before:
                         # the MILP back-end failed during this case although nothing injected a fault: run the case
                         # again; what the second run records is what counts
@@ -56,6 +60,17 @@ def main():
                 if budget and time.time() - t0 > budget:
                     rec.extra["budget_stop"] = True
                     break
+            # the same inputs once more, after everything else this process has handled: whatever the process
+            # remembers by then (memo tables, shared defaults, objects edited in place) is in play, and every
+            # execution is judged by the same monitors as the first time
+            if not rec.extra.get("budget_stop") and not getattr(mod, "NO_SECOND_RUNS", False):
+                for _, case in sorted(quick_ones, key=lambda x: x[0])[: (12 if tier == "quick" else 60)]:
+                    rec.begin(case)
+                    try:
+                        rec.count("note:cases-run-again-at-the-end-of-the-process")
+                        mod.run_case(case, rec)
+                    finally:
+                        rec.end()
         if hasattr(mod, "finish"):
             mod.finish(rec)
     except Exception:
